@@ -629,6 +629,17 @@ def gen_cases(rng, tier, budget):
         cases.append(gen_geometry(rng))
     for _ in range(n * 5 // 100):
         cases.append(gen_reentry(rng))
+    for _ in range(n * 3 // 100):
+        # HA role changes inside histories: SetAllocDirection flips (also repeated and redundant ones) every few ops
+        c = gen_registry(rng, maxops=30)
+        h, o = c.split(" ; ")
+        o = o.split()
+        out = []
+        for i, x in enumerate(o):
+            if i % rng.choice([2, 3, 4, 5]) == 0:
+                out += ["D%d" % rng.randint(0, 1)] * rng.choice([1, 1, 2])
+            out.append(x)
+        cases.append(h + " ; " + " ".join(out))
     for _ in range(n * 2 // 100):
         # the same Resolve / registry ops with no registry at all (nil global registry, nil receivers)
         c = gen_registry(rng, resolve=True, maxops=25) if rng.random() < 0.6 else gen_reentry(rng)
